@@ -5,6 +5,7 @@ import hashlib
 import importlib
 import json
 import os
+import shutil
 import subprocess
 import sys
 import time
@@ -110,11 +111,20 @@ def main(argv=None):
     if a.replay:
         nshards = 1
     nshards = min(nshards, getattr(mod, "MAX_SHARDS", 16))
-    logdir = os.path.join(VERIF, "logs", prop)
+    # one directory per run: two runs of the same check at the same time (e.g. against two trees) must not share files
+    base = os.path.join(VERIF, "logs", prop)
+    os.makedirs(base, exist_ok=True)
+    for f in os.listdir(base):           # runs that ended more than a day ago
+        q = os.path.join(base, f)
+        try:
+            if os.path.isdir(q) and f.startswith("run-") and time.time() - os.path.getmtime(q) > 86400:
+                shutil.rmtree(q, ignore_errors=True)
+            elif os.path.isfile(q) and f.startswith("shard"):
+                os.remove(q)
+        except OSError:
+            pass
+    logdir = os.path.join(base, "run-%d-%d" % (int(time.time()), os.getpid()))
     os.makedirs(logdir, exist_ok=True)
-    for f in os.listdir(logdir):
-        if f.startswith("shard"):
-            os.remove(os.path.join(logdir, f))
     env = child_env()
     timeout = float(os.environ.get("VERIF_WATCHDOG_S") or (14400 if a.tier == "thorough" else 3000))
     procs = []
@@ -141,6 +151,8 @@ def main(argv=None):
         else:
             dead.append((s, rc))
     tot = merge(shards)
+    if not dead:
+        shutil.rmtree(logdir, ignore_errors=True)      # kept (with the shards' stderr) only when a shard did not finish
 
     # ---- classify violations ----------------------------------------------------------
     findings = [e for e in load_findings() if e.get("property") == prop]
